@@ -121,6 +121,22 @@ fn handle_faucet_tx<C: ContentAddrStore>(
     Ok(())
 }
 
+/// The minimum fee of a transaction of the given weight: `weight * fee_multiplier / 65536`, rounded down.
+///
+/// `Transaction::base_fee` forms the product with a saturating multiplication, so from `weight * fee_multiplier >= 2^128` on
+/// it answers `2^112 - 1` however large the true minimum is. Here the quotient is computed exactly; a minimum that does not
+/// fit 128 bits is reported as the largest value, which no fee can pay.
+fn minimum_fee(weight: u128, fee_multiplier: u128) -> CoinValue {
+    // weight * m / 2^16 = weight * (m >> 16) + (weight * (m & 0xffff)) >> 16, exactly
+    let exact = weight
+        .checked_mul(fee_multiplier >> 16)
+        .and_then(|high| {
+            let low = weight.checked_mul(fee_multiplier & 0xffff)? >> 16;
+            high.checked_add(low)
+        });
+    CoinValue(exact.unwrap_or(u128::MAX))
+}
+
 fn create_next_state<C: ContentAddrStore>(
     mut next_state: UnsealedState<C>,
     transactions: &[Transaction],
@@ -144,9 +160,10 @@ fn create_next_state<C: ContentAddrStore>(
             }
         }
         // fees
-        let min_fee = tx.base_fee(next_state.fee_multiplier, 0, |c| {
-            covenant_weight_from_bytes(c)
-        });
+        let min_fee = minimum_fee(
+            tx.weight(covenant_weight_from_bytes),
+            next_state.fee_multiplier,
+        );
         if tx.fee < min_fee {
             return Err(StateError::InsufficientFees(min_fee));
         } else {
